@@ -93,8 +93,9 @@ Proof.
   - cbn [fst snd]; unfold g_step; simpl. constructor; simpl; auto; discriminate.
   - assert (Hc : closed s = true) by (apply J3; left; reflexivity).
     destruct (m_pc s) eqn:Epc; cbn [fst snd]; unfold g_step; simpl; constructor; simpl; auto;
-      try discriminate; try (intros _ x; discriminate).
-    intros x H. injection H as <-. left. reflexivity.
+      try discriminate.
+    all: try solve [intros _ x; rewrite Epc; discriminate].
+    all: try solve [intros x H; injection H as <-; left; reflexivity].
 Qed.
 
 Lemma step2 g s l :
